@@ -231,9 +231,9 @@ type inst struct {
 	db       *world.CrashDS
 	ex       *kv.KVExecutor
 	ctx      context.Context
-	genesis  []byte   // first InitChain answer
-	root     []byte   // last root this instance returned (what a node would pass as prevStateRoot)
-	executed uint64   // accepted blocks
+	genesis  []byte    // first InitChain answer
+	root     []byte    // last root this instance returned (what a node would pass as prevStateRoot)
+	executed uint64    // accepted blocks
 	last     *execArgs // last block handed to ExecuteTxs (not probes)
 	lastOK   bool
 	finals   []finalEvent
@@ -336,6 +336,7 @@ type world4 struct {
 	p, q, a, b *inst
 	ts         time.Time
 	labels     map[string]bool
+	obs        map[string]bool
 }
 
 // checkAgainstQ compares an observed root of instance in with the reference root.
@@ -466,7 +467,7 @@ func (w *world4) side(in *inst, op SideOp, afterBlock int, when string) *world.V
 // run
 
 func run(sc Scenario, needFinal bool) world.Verdict {
-	w := &world4{p: newInst("P"), q: newInst("Q"), a: newInst("A"), b: newInst("B"), ts: genesisTime, labels: map[string]bool{}}
+	w := &world4{p: newInst("P"), q: newInst("Q"), a: newInst("A"), b: newInst("B"), ts: genesisTime, labels: map[string]bool{}, obs: map[string]bool{}}
 	all := []*inst{w.p, w.q, w.a, w.b}
 
 	// chain initialization: every instance starts from an empty datastore
@@ -518,6 +519,16 @@ func run(sc Scenario, needFinal bool) world.Verdict {
 			}
 			if !bytes.Equal(po.root, qo.root) {
 				return world.Fail("C15/refused-block-changed-state", "%s: a plain instance that earlier executed refused/malformed blocks returns root %s, one that never saw them returns %s", when, short(po.root), short(qo.root))
+			}
+		}
+		if accepted && !malformed && len(txs) > 0 {
+			// stronger than the statement (key-value semantics), recorded as an observation only:
+			// the value of the block's last transaction can be read back.
+			last := txs[len(txs)-1]
+			i := bytes.IndexByte(last, '=')
+			got, ok := w.p.ex.GetStoreValue(w.p.ctx, strings.TrimSpace(string(last[:i])))
+			if !ok || got != strings.TrimSpace(string(last[i+1:])) {
+				w.obs["last-written-value-not-read-back"] = true
 			}
 		}
 		if accepted && malformed {
@@ -624,7 +635,12 @@ func run(sc Scenario, needFinal bool) world.Verdict {
 	if nonEmptyAccepted >= 2 {
 		ls = append(ls, ">=2-nonempty-blocks")
 	}
-	return world.OK(nt, ls...)
+	v := world.OK(nt, ls...)
+	for o := range w.obs {
+		v.Observations = append(v.Observations, o)
+	}
+	sort.Strings(v.Observations)
+	return v
 }
 
 func blocksOps(sc Scenario, a bool) [][]SideOp {
